@@ -557,6 +557,31 @@ func c08attest(c *Ctx, a *alphAnchors) {
 		fs := acceptFacts(r)
 		parsed := "N/alephium.parseAttestToken(msg.payload)#0"
 		chain := "(*N/alephium.Client).GetTokenInfo(w.client,ctx," + parsed + ".TokenId)#0"
+		// the comparison written out field by field (all fields of TokenInfo) counts as the
+		// struct comparison
+		if tiT := p.Named(pkgAlph, "TokenInfo"); tiT != nil {
+			st := tiT.Underlying().(*types.Struct)
+			all := st.NumFields() > 0
+			for k := 0; k < st.NumFields(); k++ {
+				fn := st.Field(k).Name()
+				l, rr := parsed+"."+fn, chain+"."+fn
+				found := false
+				for _, f := range fs {
+					a := f.Atom
+					if a == facts.CmpAtom(l, token.EQL, rr) || a == facts.CmpAtom(rr, token.EQL, l) ||
+						strings.HasSuffix(a, ".equalWith("+l+","+rr+")") || strings.HasSuffix(a, ".equalWith("+rr+","+l+")") ||
+						a == "bytes.Equal("+l+"[:],"+rr+"[:])" || a == "bytes.Equal("+rr+"[:],"+l+"[:])" {
+						found = true
+					}
+				}
+				if !found {
+					all = false
+				}
+			}
+			if all {
+				fs = append(fs, facts.Fact{Atom: facts.CmpAtom("*"+parsed, token.EQL, "*"+chain)})
+			}
+		}
 		c.checkFacts(p, "C08.attest", a.validateAttest, "return:nil", r, fs, []req{
 			{Name: "payload parsed", Pred: func(at string) bool { return at == "N/alephium.parseAttestToken(msg.payload)#1 == nil" }},
 			{Name: "token info fetched from the token contract named in the payload", Pred: func(at string) bool { return at == strings.TrimSuffix(chain, "#0")+"#1 == nil" }},
